@@ -7,6 +7,11 @@ network state.  Geometry is in `Rat`; the Euclidean lengths of the polyline segm
 The split model follows the REPAIRED code (fixes/C19-split-no-check-valve.patch: the new pipe gets no check
 valve; fixes/C19-split-at-zero-with-vertices.patch: `junction_coordinates` defaults to the start node's
 coordinates); the pinned behaviour is kept in Props/C19.lean next to its counterexamples.
+
+Quirks of the code that are mirrored: the new pipe's `initial_status` is the original's CURRENT `status`
+property (not its `initial_status`); `minor_loss` is copied to both parts; a vertex equal to the start node's
+coordinates is dropped; a pipe between two reservoirs raises AttributeError (`Reservoir` has no `elevation`);
+a merged pipe of the skeletonizer has no check valve and no vertices and runs from `neighbors[0]` to `neighbors[1]`.
 -/
 namespace Wntr.Morph
 
@@ -31,7 +36,8 @@ structure Pipe where
   diam : Rat
   rough : Rat
   minor : Rat
-  status : Nat          -- LinkStatus value
+  initStatus : Nat      -- `initial_status` (LinkStatus value; the one `to_dict` emits)
+  status : Nat          -- the `status` property (current status; equals `initial_status` on a model that has not been simulated)
   cv : Bool
   verts : List Pt
   deriving Repr, DecidableEq
@@ -54,6 +60,7 @@ inductive Err where
   | badFraction       -- ValueError('split_at_point must be between 0 and 1')
   | nameInUse         -- RuntimeError (junction or link name already used)
   | unbound           -- UnboundLocalError: junction_coordinates (pinned code only)
+  | noElevation       -- AttributeError: both ends are reservoirs (`Reservoir` has no `elevation`)
   deriving Repr, DecidableEq
 
 def Net.node? (n : Net) (name : String) : Option Node := n.nodes.find? (·.name == name)
@@ -116,6 +123,7 @@ def splitCore (initStart : Bool) (newCv : Pipe → Bool) (net : Net) (pipeName n
     else
       match net.node? pipe.a, net.node? pipe.b with
       | some s, some e =>
+        if s.kind = .reservoir ∧ e.kind = .reservoir then .error .noElevation else
         let elev := junctionElevation s e f
         let (xy?, fv, lv) := geometry s e pipe.verts segLens f (if initStart then some s.xy else none)
         match xy? with
@@ -127,10 +135,10 @@ def splitCore (initStart : Bool) (newCv : Pipe → Bool) (net : Net) (pipeName n
           let (old, new) : Pipe × Pipe :=
             if atEnd then
               ({ pipe with b := j0, length := pipe.length * f, verts := fv },
-               { pipe with name := newPipe, a := j1, b := e.name, length := pipe.length * (1 - f), cv := newCv pipe, verts := lv })
+               { pipe with name := newPipe, a := j1, b := e.name, length := pipe.length * (1 - f), initStatus := pipe.status, cv := newCv pipe, verts := lv })
             else
               ({ pipe with a := j0, length := pipe.length * (1 - f), verts := lv },
-               { pipe with name := newPipe, a := s.name, b := j1, length := pipe.length * f, cv := newCv pipe, verts := fv })
+               { pipe with name := newPipe, a := s.name, b := j1, length := pipe.length * f, initStatus := pipe.status, cv := newCv pipe, verts := fv })
           .ok { net with nodes := nodes,
                          pipes := (net.pipes.map fun p => if p.name == pipeName then old else p) ++ [new] }
       | _, _ => .error .notAPipe
@@ -160,6 +168,9 @@ structure SLink where
   isPipe : Bool
   diam : Rat
   length : Rat
+  minor : Rat
+  status : Nat          -- the `status` property (what `_series/_parallel_merge_properties` read)
+  cv : Bool
   deriving Repr, DecidableEq
 
 structure Skel where
@@ -243,7 +254,8 @@ def seriesMerge (s : Skel) (j n0 n1 : String) (thr : Rat) : Skel :=
           | none => s
           | some c =>
             let d := dominant p0 p1
-            let merged : SLink := { name := d.name, a := n0, b := n1, isPipe := true, diam := d.diam, length := p0.length + p1.length }
+            let merged : SLink := { name := d.name, a := n0, b := n1, isPipe := true, diam := d.diam, length := p0.length + p1.length,
+                                    minor := d.minor, status := d.status, cv := false }
             { s with nodes := absorbNode s.nodes j c nj.demands,
                      links := (s.links.filter (fun l => l.name != p0.name && l.name != p1.name)) ++ [merged],
                      map := mapMerge s.map j c }
@@ -257,7 +269,7 @@ def parallelMerge (s : Skel) (j n p0n p1n : String) (thr : Rat) : Skel :=
       if ¬ (removable s p0 thr ∧ removable s p1 thr) then s
       else
         let d := dominant p0 p1
-        let merged : SLink := { d with isPipe := true }
+        let merged : SLink := { d with isPipe := true, cv := false }
         { s with links := (s.links.filter (fun l => l.name != p0.name && l.name != p1.name)) ++ [merged] }
     | _, _ => s
 
